@@ -192,7 +192,44 @@ def r06_3(ctx):
            'the signal is sent only when the owner pid belongs to a process of the pool')
 
 
+def r06_5(ctx):
+    ctx.rule('R06.5', 'one scan, one memory of who was signalled: the scan generator (which owns the set of already '
+                      'signalled jobs) is created in one place and driven either by the scanner thread or, in a pool '
+                      'without threads, by the result loop -- never by both', floor=3)
+    m = ctx.model
+    th = m.cls('pool:TimeoutHandler')
+    # the generator is created only by handle_event, lazily, once
+    makers = []
+    for name, fi in sorted(th.methods.items()):
+        for (n, c) in q.calls(fi, 'self.handle_timeouts'):
+            makers.append((fi, n, c))
+    q.need(makers, 'TimeoutHandler: nobody creates the scan generator')
+    for (fi, n, c) in makers:
+        in_body = fi.name == 'body'
+        lazy = fi.name == 'handle_event' and q.has_guard(fi, n, 'self._it is None', True)
+        ctx.ob('R06.5', '%s:scan-generator-created-once' % fi.name, in_body or lazy, fi, c,
+               'created under `self._it is None`' if lazy else 'the thread body iterates its own generator' if in_body
+               else 'a second scan generator starts with an empty signalled set: jobs are signalled again')
+    # who drives handle_event: only Pool.__init__, only for a pool without threads
+    n_bind = 0
+    for qn, fi in sorted(m.funcs.items()):
+        if fi.module.name != 'pool':
+            continue
+        for node in [x for x in walk_own(fi.node) if isinstance(x, ast.Attribute) and x.attr == 'handle_event'
+                     and fi.canon(x.value) in ('self._timeout_handler',)]:
+            n_bind += 1
+            stn = fi.cfg.node_containing(node)
+            ok = bool(stn) and all(q.has_guard(fi, s, 'threads', False) or q.has_guard(fi, s, 'self.threads', False)
+                                   for s in stn)
+            ctx.ob('R06.5', '%s:result-loop-drives-the-scan-only-without-threads' % fi.qual.split(':')[1], ok, fi, node,
+                   'bound to check_timeouts only under `not threads`' if ok else
+                   'with threads the scanner thread already runs the scan; a second driver creates a second generator '
+                   'with its own signalled set and every job past its soft limit is signalled twice')
+    q.need(n_bind >= 1, 'Pool never hands the scan to the result loop')
+
+
 def run(ctx):
+    r06_5(ctx)
     r04_1(ctx, site=_scanner_side, floor=5)
     r05_1(ctx)
     r06_1(ctx)
@@ -205,6 +242,8 @@ def run(ctx):
 
 _P = 'billiard/pool.py'
 MUTANTS = [
+    ('result-loop-scans-too', _P, "            if not threads:\n                self.check_timeouts = self._timeout_handler.handle_event\n",
+     "            self.check_timeouts = self._timeout_handler.handle_event\n", 'R06.5'),
     ('signalled-every-scan', _P, "                elif i not in dirty and _timed_out(ack_time, soft_timeout):", "                elif _timed_out(ack_time, soft_timeout):", 'R06.1'),
     ('never-remembered', _P, "                    on_soft_timeout(job)\n                    dirty.add(i)\n", "                    on_soft_timeout(job)\n", 'R06.1'),
     ('memory-reset-each-scan', _P, "            if dirty:\n                dirty = set(k for k in dirty if k in cache)\n", "            dirty = set()\n", 'R06.1'),
